@@ -94,7 +94,7 @@ def generate(rng, tier):
     used = sorted({a[0] for a in arcs} | {a[1] for a in arcs})
     s, t = rng.sample(used, 2)
     return {"kind": "st", "n": n, "arcs": arcs, "s": s, "t": t, "demand": rng.choice([0, 1, 1, 2, 3, 5, 8]),
-            "labels": [gen_labels(rng, n), gen_labels(rng, n)], "ints_too": rng.random() < 0.3}
+            "labels": [gen_labels(rng, n), gen_labels(rng, n)], "ints_too": rng.random() < 0.3, "fresh": rng.random() < 0.5}
 
 
 # ------------------------------------------------------------------------------------------- features (known-finding scopes)
@@ -117,12 +117,14 @@ def judge_mcf(case, o, labels, tag, opt):
     arcs = case["arcs"]
     L = labels
     graph: dict = {}
+    fresh = case.get("fresh") and all(isinstance(x, str) for x in L)
+    cl = (lambda x: (x + "x")[:-1]) if fresh else (lambda x: x)  # equal but not identical label objects
     for u, v, cap, c in arcs:
-        graph.setdefault(L[u], []).append((L[v], cap, c))
+        graph.setdefault(L[u], []).append((cl(L[v]), cap, c))
     key = dict(target="min_cost_flow", **features(arcs))
     try:
         with budget.steps(STEP_LIMIT):
-            res = m.min_cost_flow(graph, L[case["s"]], L[case["t"]], case["demand"])
+            res = m.min_cost_flow(graph, cl(L[case["s"]]), cl(L[case["t"]]), case["demand"])
     except budget.StepBudgetExceeded:
         o.violate(PROP, "no_return", f"{tag}: min_cost_flow did not return within {STEP_LIMIT} events", **key)
         return None
